@@ -52,7 +52,10 @@ def value_classes():
                      ("fold0", dt.datetime(2021, 10, 31, 2, 30, tzinfo=AMS)), ("fold1", dt.datetime(2021, 10, 31, 2, 30, fold=1, tzinfo=AMS)),
                      ("gap", dt.datetime(2021, 3, 28, 2, 30, tzinfo=AMS)), ("none", None)],
         "path": [("posix_abs", "/a/b c/d.txt"), ("posix_rel", "a/b"), ("windows", ft.path.from_windows("c:\\a\\b.txt")),
-                 ("unc", ft.path.from_windows("\\\\srv\\share\\x")), ("empty", ""), ("dot", "."), ("escape", "/x/\udcfe"), ("none", None)],
+                 ("unc", ft.path.from_windows("\\\\srv\\share\\x")),
+                 # POSIX paths that LOOK like Windows paths: a backslash in a file name, a colon as second character
+                 ("posix_backslash", ft.path.from_posix("/tmp/back\\slash.txt")), ("posix_colon", ft.path.from_posix("a:b")), ("posix_drive_like", ft.path.from_posix("c:/data")),
+                 ("empty", ""), ("dot", "."), ("escape", "/x/\udcfe"), ("none", None)],
         "command": [("posix", "ls -la 'a b'"), ("posix_noargs", "/bin/true"), ("windows", "c:\\x.exe /a b"), ("winenv", "%windir%\\x.exe"),
                     ("win_noexe", ft.command.from_windows(None)), ("posix_noexe", ft.command.from_posix(None)), ("win_explicit", ft.command.from_windows("x.exe /a")),
                     ("posix_explicit", ft.command.from_posix("x.exe /a")), ("none", None)],
